@@ -304,7 +304,16 @@ def inventory() -> List[Tuple[str, str, str, str, str, str, str]]:
                             kind = "aug" + type(st.op).__name__ if isinstance(st, ast.AugAssign) else "assign"
                             add(scope, t.attr, kind, ast.unparse(t), ast.unparse(st.value), guards)
                         if isinstance(t, ast.Subscript) and "__dict__" in ast.unparse(t.value):
-                            add(scope, "*", "setattr", ast.unparse(t), ast.unparse(st.value) if getattr(st, "value", None) else "", guards)
+                            key = t.slice.value if isinstance(t.slice, ast.Constant) and isinstance(t.slice.value, str) else None
+                            val = ast.unparse(st.value) if getattr(st, "value", None) else ""
+                            if key is None:
+                                # a computed key can name any attribute: a wildcard row
+                                add(scope, "*", "setattr", ast.unparse(t), val, guards)
+                            elif _is_field(key):
+                                # a literal key names one attribute: the same row as `x.<key> = …`
+                                add(scope, key, "assign", ast.unparse(t), val, guards)
+                            # a literal key that is none of the inventoried fields writes none of them (e.g. the environments'
+                            # `self.__dict__['_generator_state']` of the F-11 repair)
                 exprs(st, scope, guards)
 
         def klass(cls: ast.ClassDef, scope):
